@@ -419,16 +419,20 @@ def masking_and_pipeline(chk, tier, rng):
     """E1: no undefined value reaches any of the 21 assembled components (T=0 row included); T=0 thermal rows are exactly zero.
     Temperature grids: T=0 first (T_MIN = 0), no T=0 point at all (T_MIN > 0), T=0 not in first position."""
     res = keys = ctx = None
-    for grid in ("T0-first", "no-T0", "T0-last", "T0-first, C_V(0 K) = 0"):
+    for grid in ("T0-first", "no-T0", "T0-last", "T0-first, C_V(0 K) = 0", "T0-first, last q-point of weight 0"):
         ctx_ = new_context()
         H, K, _ = PC.declare_constants(ctx_)
         nq, np_, nv = 2, 3, 1
         duck = PC.make_duck(ctx_, nq, np_, nv, n_sym_T=1 if grid != "no-T0" else 2, with_T0=(grid != "no-T0"), t0_last=(grid == "T0-last"))
+        if grid.endswith("weight 0"):
+            # a q-point of weight exactly 0 (legitimate: it drops out of the Brillouin-zone averages) must not turn w * x into 0 * undefined
+            duck.weights[-1] = Sym({})
+            duck.qha_input.weights = [((0.0, 0.0, float(i)), w) for i, w in enumerate(duck.weights)]
         if grid.endswith("= 0"):
             # the heat capacity the QHA layer hands over vanishes at 0 K (exactly, on fine temperature grids): 0/0 in the adiabatic correction
             duck.heat_capacity[0, :] = Sym({})
         strain = symvars("e", (nv, 3), positive=True)
-        keys_ = KEYS if (tier != "quick" and not grid.endswith("= 0")) else (["c11", "c12", "c44", "c14", "c15", "c56"] if grid == "T0-first" else ["c11", "c12", "c44", "c15"])
+        keys_ = KEYS if (tier != "quick" and not grid.endswith("= 0") and not grid.endswith("weight 0")) else (["c11", "c12", "c44", "c14", "c15", "c56"] if grid == "T0-first" else ["c11", "c12", "c44", "c15"])
         t0 = time.time()
         try:
             res_, proxy = PL.run_pipeline(duck, strain, keys_)
@@ -449,6 +453,8 @@ def masking_and_pipeline(chk, tier, rng):
                        % (grid, len(keys_), len(duck.t_array)), "unsat" if not bad else "sat", seconds=round(time.time() - t0, 1), kind="definedness")
         if bad:
             d = PL.float_duck(2, 3, 1, 2, rng, t0=(grid != "no-T0"))
+            if grid.endswith("weight 0"):
+                d.qha_input.weights = [(q_, 0.0 if i_ == len(d.qha_input.weights) - 1 else w_) for i_, (q_, w_) in enumerate(d.qha_input.weights)]
             if grid.endswith("= 0"):
                 d.qha_calculator.volume_base.heat_capacity[0, :] = 0.0
             if grid == "T0-last":
@@ -460,7 +466,8 @@ def masking_and_pipeline(chk, tier, rng):
             nonfinite = [k for k in keys_ if not (numpy.all(numpy.isfinite(iso[k])) and numpy.all(numpy.isfinite(adi[k])))]
             if nonfinite:
                 chk.violation("pipeline:non-finite[%s]" % grid, "assembled components %s contain NaN/inf on a temperature grid %s (T = %s)" % (
-                    nonfinite[:4], {"T0-first": "starting at 0 K", "no-T0": "with T_MIN > 0", "T0-last": "whose T = 0 point is not the first", "T0-first, C_V(0 K) = 0": "starting at 0 K where the QHA heat capacity is exactly 0"}[grid],
+                    nonfinite[:4], {"T0-first": "starting at 0 K", "no-T0": "with T_MIN > 0", "T0-last": "whose T = 0 point is not the first", "T0-first, C_V(0 K) = 0": "starting at 0 K where the QHA heat capacity is exactly 0",
+                                     "T0-first, last q-point of weight 0": "starting at 0 K, with a q-point of weight 0"}[grid],
                     d.t_array.tolist()), dict(keys=nonfinite, temperatures=d.t_array.tolist()))
             else:
                 chk.harness_error("undefined symbolic value %s did not reproduce as NaN/inf" % (bad[:2],))
